@@ -499,7 +499,7 @@ Definition compare_outcome (how : string) (m : option (option sexp * list pos)) 
       end
   end.
 
-Definition from_bytes_limit : N := 4096.
+Definition from_bytes_limit : N := 2048.
 
 (** the parser model on the real scanner's tokens; and, from the bytes, the scanner model against
     the real scanner's stream and the composed model against the real parser's result *)
@@ -535,6 +535,10 @@ Definition classes_run (e : entry) (r : run) : list string :=
   (match e with EDoc => ["document"] | EValue => ["value"] end) ++
   (if acc then ["accepted"] else ["rejected"]) ++
   (if lexerr then ["lexical-error"] else []) ++
+  (if existsb (fun t => Nat.leb 2 (List.length (st_errs t))) (r_toks r) || Nat.leb 2 (List.length (r_eof_errs r))
+   then ["several-errors-in-one-scan"] else []) ++
+  (match r_eof_errs r with [] => [] | _ => ["lexical-error-at-end"] end) ++
+  (if lexerr && match r_tree r with Some _ => true | None => false end then ["tree-beside-lexical-error"] else []) ++
   (if negb acc && negb lexerr then
      (if pos_eqb lastp (r_eof r) then ["error-at-eof"] else ["error-at-token"]) else []) ++
   (if acc && N.ltb 1 (line (r_eof r)) then ["multi-line"] else []) ++
